@@ -50,7 +50,7 @@ Theorem C03_balanced_unfold : forall s s' evs,
   forall q d,
     zsum (ev_signed s q d) evs <= amt (share_of s' q) d - amt (share_of s q) d <= zsum (ev_pos s q d) evs /\
     (d = DCpu \/ d = DMem -> amt (share_of s' q) d - amt (share_of s q) d = zsum (ev_signed s q d) evs).
-Proof. intros. reflexivity. Qed.
+Proof. exact balanced_unfold. Qed.
 Print Assumptions C03_balanced_unfold.
 
 (* A.3 (main)  for every world, every list of oracle choices (no hypothesis on the verdicts: a
@@ -114,7 +114,7 @@ Print Assumptions C03_never_above_capability.
 Theorem C03_world_ok_unfold : forall w,
   world_ok w <->
   heap_ok (heap (w_sess w)) /\ be_empty (heap (w_sess w)) /\ no_evict (w_sess w).
-Proof. intros. reflexivity. Qed.
+Proof. exact world_ok_unfold. Qed.
 Print Assumptions C03_world_ok_unfold.
 
 Theorem C03_world_okb_sound : forall w, world_okb w = true -> world_ok w.
